@@ -301,8 +301,8 @@ Qed.
 
 (* ==== the two models composed into one transition system (Model/RunHandoff.v): a state is
         (protocol state, run-loop state); [creach needAll m g F] = every interleaving of executors,
-        collector and the run loop that submits (first task synchronously when nothing is outstanding
-        and the step has one task or the mode is needAll), waits (batch: until nothing is outstanding;
+        collector and the run loop that hands the new tasks to the task manager (each on a goroutine
+        of its own or synchronously, in any order), waits (batch: until nothing is outstanding;
         eager: for one task) and resolves what the collector handed back, in the order it was
         collected.  [conf_run] is the executable replay the correspondence runs on every trace. ==== *)
 
